@@ -2,11 +2,14 @@
 from propslib import comp_scope
 
 PROP = dict(
-    extract=[],
-    lean_targets=["Chewing.Props.C09"],
+    extract=["capi_user"],
+    lean_targets=["Chewing.Props.C09", "Chewing.Props.C08CApi"],
     runs=[dict(bin="dict", timeout=1200, timeout_thorough=3000),
-          dict(bin="dictsql", features=["sqlite"], timeout=1200, timeout_thorough=3000)],
-    scope=comp_scope("dict", "dictsql"),
+          dict(bin="dictsql", features=["sqlite"], timeout=1200, timeout_thorough=3000),
+          # the map behaviour seen through the C user-phrase calls (add / remove / lookup / enumerate with arbitrary strings):
+          # records `capiuser …` + the statements of Props/C08CApi.lean evaluated on the real C context (`!oracle C09 new …`)
+          dict(bin="capi_props", tag="capi_props", args=["--histories", "300", "--calls", "40"], args_thorough=["--histories", "6000", "--calls", "40"])],
+    scope=comp_scope("dict", "dictsql", "capiuser"),
     level="proof",
     exhaustive=False,
     rule="one evaluation = one step of a random operation history (<= 30 ops; add/update/remove/flush/reopen/close+open; "
